@@ -297,6 +297,34 @@ impl VerifBuf {
     }
 }
 
+/// `FileOrMemBuf<u8>`: one-byte items, so that chunk headers fall on arbitrary file offsets.
+pub struct VerifBufU8(FileOrMemBuf<u8>);
+
+impl VerifBufU8 {
+    pub fn new(dir: Option<&Path>, capacity: usize) -> std::io::Result<Self> {
+        Ok(Self(FileOrMemBuf::new(dir, capacity)?))
+    }
+
+    pub fn write_chunk(&mut self, chunk: &[u8]) -> Result<(), String> {
+        self.0.write_chunk(chunk).map_err(|e| format!("{e:?}"))
+    }
+
+    /// Item-wise iteration over everything.
+    pub fn iter_all(&mut self) -> Result<Vec<u8>, String> {
+        let it = self.0.iter().map_err(|e| format!("{e:?}"))?;
+        it.collect::<Result<Vec<_>, _>>()
+            .map_err(|e| format!("{e:?}"))
+    }
+
+    /// Chunk-wise iteration over everything.
+    pub fn chunks_all(&mut self, size: usize) -> Result<Vec<Vec<u8>>, String> {
+        let it = self.0.chunks(size).map_err(|e| format!("{e:?}"))?;
+        it.map(|c| c.map(|c| c.into_owned()))
+            .collect::<Result<Vec<_>, _>>()
+            .map_err(|e| format!("{e:?}"))
+    }
+}
+
 /// `transpose_bitmatrix` (runtime dispatch).
 pub fn transpose_bitmatrix(input: &[u8], output: &mut [u8], rows: usize) {
     crate::transpose::transpose_bitmatrix(input, output, rows)
